@@ -287,7 +287,7 @@ CHECKS = {
     "C14": dict(
         title="Servers dispatch each valid datagram exactly once and survive bad ones",
         stages=[dict(name="serve", race=True, shards=S16, timeout={"quick": 900, "thorough": 5400})],
-        race_is_violation=True,
+        race_is_violation=True, slow_rerun_limit=400,
         rule="both servers (server4/server6.NewServer with WithConn(scripted PacketConn)) under the race detector: sequences of 0..200 datagrams mixing valid messages of every type (DHCPv6: every option type, relay nesting 0..4), "
              "truncated, bad-cookie, End-less, undecodable, short-relay and empty datagrams, from senders with an address, with a nil address, with 0.0.0.0 (4- and 16-byte forms), zone-qualified link-local; handlers that return "
              "at once, outlive the next k reads (k up to 20) or run until the end; the sequence ends with a scripted read error or Close() at a seeded position. Each valid datagram carries a unique nonce. "
